@@ -660,7 +660,7 @@ def hopf_zero_block(run):
                  "aligned block of the data is entirely zero (repaired; a VIOLATION if it returns)", {"data": [0, 0, 1, 2], "error": err, "state": None if s is None else [str(x) for x in s]})
 
 
-RULE = ("QFT: n=1..5 (6 thorough) operator obligations (both variants), n<=12 structure; comp_basis: random bit strings in all accepted "
+RULE = ("dtype x sparsity x sign matrix for every data encoder (float64 / int64 / complex dtype with zero imaginary parts / genuinely complex; dense positive, mixed, negative, sparse, basis vectors, +-1 patterns); QFT: n=1..5 (6 thorough) operator obligations (both variants), n<=12 structure; comp_basis: random bit strings in all accepted "
         "input formats; ghz n=2..12; phase_encoder random data/rotation; unary: pairs for tree n=2..32 and diagonal n=2..12, data with "
         "zeros/negatives/sparse + all 0/1 patterns of length 4 and 8 for the NaN condition; Ehrlich: every (n,k), n<=10, plus shifted "
         "and malformed initial strings; hamming_weight_encoder skeleton for every (n,k), n<=7, both optimize_controls, data incl. "
@@ -716,6 +716,122 @@ def layers_structure(run, rng, nmax):
 
 def flatten_pairs(m):
     return [[int(a), int(b)] for a, b in m]
+
+
+# ------------------------------------------------------------------ dtype x sparsity x sign matrix of encoder inputs
+def matrix_vectors(rng, d):
+    dense = [round(rng.uniform(0.2, 2.0), 3) for _ in range(d)]
+    out = {"dense_pos": list(dense), "dense_mixed": [x if i % 2 else -x for i, x in enumerate(dense)],
+           "dense_neg": [-x for x in dense]}
+    sp = [0.0] * d
+    sp[rng.randrange(d)] = 1.5
+    sp[rng.randrange(d)] = -0.7
+    out["sparse"] = sp
+    for nme, pos, val in (("basis_mid", d // 2, 1.0), ("basis_first_neg", 0, -1.0), ("basis_last", d - 1, 1.0)):
+        v = [0.0] * d
+        v[pos] = val
+        out[nme] = v
+    out["pm_ones"] = [rng.choice([1.0, -1.0]) for _ in range(d)]
+    return out
+
+
+def cast_vec(v, dt):
+    if dt == "float64":
+        return np.array(v, dtype=float)
+    if dt == "int64":
+        x = np.rint(np.array(v) * 2).astype(np.int64)
+        if not x.any():
+            x[0] = 1
+        return x
+    if dt == "complex_zero_imag":          # complex dtype, every imaginary part exactly zero
+        return np.array(v, dtype=complex)
+    if dt == "complex":
+        return np.array(v, dtype=complex) * np.exp(1j * np.linspace(0.3, 2.0, len(v)))
+    raise ValueError(dt)
+
+
+def run_encoder(enc, args, x):
+    from qibo.models.encodings import binary_encoder, hamming_weight_encoder, unary_encoder
+    if enc == "binary":
+        s = np.asarray(binary_encoder(x, parametrization=args["parametrization"])().state())
+        return s, None
+    if enc == "hw":
+        s = np.asarray(hamming_weight_encoder(x, args["n"], args["k"], optimize_controls=args.get("optimize_controls", True))().state())
+        return s, weight_k_indices(args["n"], args["k"])
+    s = np.asarray(unary_encoder(x, args["architecture"])().state())
+    return s, [2 ** i for i in range(len(x))]
+
+
+def encoder_ok(enc, args, x):
+    with warnings.catch_warnings():
+        warnings.simplefilter("ignore")
+        try:
+            s, idx = run_encoder(enc, args, x)
+        except Exception as e:
+            return f"raises {type(e).__name__}: {str(e)[:80]}"
+    tgt = x / np.linalg.norm(x)
+    if idx is not None:
+        if np.abs(np.delete(s, idx)).max() > TOL:
+            return "amplitude outside the documented basis states"
+        s = s[idx]
+    if np.isnan(s).any() or np.abs(s - tgt).max() > TOL:
+        return f"amplitudes differ from data/||data|| (max {float(np.nanmax(np.abs(s - tgt))):.2e})"
+    return None
+
+
+# which dtypes each encoder is exercised with (the others are not documented as supported: unary encoders and the
+# hopf parametrization are real-valued constructions; float32 data cannot meet the 1e-10 tolerance)
+MATRIX = [
+    ("binary", {"parametrization": "hyperspherical"}, (2, 4, 8), ("float64", "int64", "complex_zero_imag", "complex")),
+    ("binary", {"parametrization": "hopf"}, (2, 4, 8), ("float64", "int64", "complex_zero_imag")),
+    ("hw", {"n": 4, "k": 2}, (6,), ("float64", "int64", "complex_zero_imag", "complex")),
+    ("hw", {"n": 5, "k": 3, "optimize_controls": False}, (10,), ("float64", "complex_zero_imag", "complex")),
+    ("unary", {"architecture": "tree"}, (4, 8), ("float64", "int64", "complex_zero_imag")),
+    ("unary", {"architecture": "diagonal"}, (3, 5, 8), ("float64", "int64")),
+]
+
+
+def dtype_matrix_test(run, rng):
+    stats = {}
+    for enc, args, sizes, dtypes in MATRIX:
+        for d in sizes:
+            for pname, v in matrix_vectors(rng, d).items():
+                for dt in dtypes:
+                    x = cast_vec(v, dt)
+                    desc = {"encoder": enc, "args": args, "dtype": dt, "pattern": pname, "data": [str(c) for c in x]}
+                    run.case(["dtype_matrix", desc])
+                    stats[f"{enc}:{dt}"] = stats.get(f"{enc}:{dt}", 0) + 1
+                    why = encoder_ok(enc, args, x)
+                    if why:
+                        tag = args.get("parametrization") or args.get("architecture") or f"{args['n']}_{args['k']}"
+                        run.find(f"dtype:{enc}-{tag}:{dt}:{pname}:{d}", f"{enc} encoder ({tag}) on {dt} data, pattern {pname}: {why}", desc)
+    # phase_encoder: ints, negative values, lists and arrays
+    from qibo.models.encodings import phase_encoder
+    for data in ([1, -2, 0, 3], np.array([0, 0, 0]), [0.5, -0.25], np.array([-1.5, 2.0, 0.0, 1.0, -3.0])):
+        for rot in ("RX", "RY", "RZ"):
+            run.case(["dtype_matrix", "phase", rot, [float(x) for x in data]])
+            try:
+                c = phase_encoder(data, rotation=rot)
+                okp = [[type(g).__name__, int(g.qubits[0]), float(g.parameters[0])] for g in c.queue] == \
+                    [[rot, q, float(data[q])] for q in range(len(data))]
+            except Exception as e:
+                okp = False
+            if not okp:
+                run.find(f"dtype:phase:{rot}:{len(data)}", "phase_encoder does not build one rotation(q, data[q]) per qubit",
+                         {"data": [float(x) for x in data], "rotation": rot})
+    return stats
+
+
+def replay_dtype(run, key, what, rp):
+    dt = rp["dtype"]
+    x = np.array([complex(c.replace("(", "").replace(")", "")) for c in rp["data"]])
+    if dt == "float64":
+        x = x.real.astype(float)
+    elif dt == "int64":
+        x = np.rint(x.real).astype(np.int64)
+    why = encoder_ok(rp["encoder"], rp["args"], x)
+    if why:
+        run.find(key, what + " | " + why, rp)
 
 
 def cap_findings(run, per_class=3):
@@ -789,6 +905,7 @@ def main(run):
     binary_structure(run, 6 if thorough else 5)
     run.notes["binary_data"] = binary_data(run, rng, 200 if thorough else 60)
     hopf_zero_block(run)
+    run.notes["dtype_matrix"] = dtype_matrix_test(run, rng)
     return run.finish(rule=RULE)
 
 
@@ -796,7 +913,9 @@ def replay(run, data):
     rp = data.get("replay", {})
     key = data.get("key", "")
     rng = random.Random(0)
-    if key.startswith("unary:"):
+    if key.startswith("dtype:") and "encoder" in rp:
+        replay_dtype(run, key, data.get("what", ""), rp)
+    elif key.startswith("unary:"):
         from qibo.models.encodings import unary_encoder
         d, arch = rp.get("data"), rp.get("architecture")
         if d is not None:
